@@ -11,6 +11,7 @@ import (
 
 	"go.nanomsg.org/mangos/v3"
 	_ "go.nanomsg.org/mangos/v3/transport/tcp"
+	_ "go.nanomsg.org/mangos/v3/vh/vipc"
 	"go.nanomsg.org/mangos/v3/vh/kinds"
 	"go.nanomsg.org/mangos/v3/vh/kit"
 	"go.nanomsg.org/mangos/v3/vh/ledger"
@@ -19,6 +20,14 @@ import (
 )
 
 const addr = "127.0.0.1:4000"
+
+// scheme selects the stream flavour: "tcp" = transport/tcp + conn.go framing, "vipc" = the IPC pipe
+// (connipc framing with its leading type byte) over the same in-memory network.
+var scheme = "tcp"
+
+func pickScheme() {
+	scheme = []string{"tcp", "vipc"}[kit.ChooseFree(2)]
+}
 
 func init() {
 	vexplore.Register("C16", func(tier string) []*vexplore.Scenario {
@@ -53,9 +62,20 @@ func spHeader(proto uint16) []byte {
 }
 
 func frame(payload []byte) []byte {
-	b := make([]byte, 8, 8+len(payload))
+	b := make([]byte, 8, 9+len(payload))
 	binary.BigEndian.PutUint64(b, uint64(len(payload)))
+	if scheme == "vipc" {
+		b = append([]byte{1}, b...)
+	}
 	return append(b, payload...)
+}
+
+// prefixLen is the size of the framing prefix of the selected stream flavour.
+func prefixLen() int {
+	if scheme == "vipc" {
+		return 9
+	}
+	return 8
 }
 
 type srv struct {
@@ -85,8 +105,8 @@ func open(k *kinds.Kind, maxrx int) *srv {
 			kit.Failf("setup", "MaxRecvSize: %s", kit.ErrName(err))
 		}
 	}
-	if err := s.Listen("tcp://" + addr); err != nil {
-		kit.Failf("setup", "Listen(tcp over vnet): %s", kit.ErrName(err))
+	if err := s.Listen(scheme + "://" + addr); err != nil {
+		kit.Failf("setup", "Listen(%s over vnet): %s", scheme, kit.ErrName(err))
 	}
 	v.x = &kinds.Sock{K: k, S: s}
 	v.x.Quiet()
@@ -141,6 +161,7 @@ func (v *srv) exchange(h *net.VConn, what string) {
 }
 
 func hsDeviation() {
+	scheme = "tcp"
 	k := kinds.ByName([]string{"pair", "rep", "xsub", "pull"}[kit.ChooseFree(4)])
 	pos := kit.ChooseFree(8)
 	val := kit.ChooseFree(16)*16 + kit.ChooseFree(16)
@@ -171,6 +192,7 @@ func hsDeviation() {
 }
 
 func hsTruncated() {
+	pickScheme()
 	k := kinds.ByName([]string{"pair", "rep"}[kit.ChooseFree(2)])
 	n := kit.ChooseFree(9) // 0..8 bytes of header sent
 	end := []string{"eof", "reset", "silence", "garbage-after"}[kit.ChooseFree(4)]
@@ -182,6 +204,9 @@ func hsTruncated() {
 			return
 		}
 		h.Feed(hdr)
+		if scheme == "vipc" {
+			h.Feed([]byte{1})
+		}
 		h.Feed([]byte{0xff, 0xff, 0xff, 0xff, 0xff, 0xff, 0xff, 0xff, 1, 2, 3})
 		kit.Quiesce()
 		if !h.ClosedByMangos() {
@@ -217,11 +242,12 @@ func hsTruncated() {
 	if end == "silence" {
 		kit.Count("stalled-does-not-delay-others")
 	}
-	kit.Observe("%s n=%d %s", k.Name, n, end)
+	kit.Observe("%s %s n=%d %s", scheme, k.Name, n, end)
 	kit.Must("Close", func() { _ = v.x.S.Close() })
 }
 
 func frameLengths() {
+	pickScheme()
 	k := kinds.ByName([]string{"pair", "pull", "rep"}[kit.ChooseFree(3)])
 	limits := []int{-1, 1, 1024, 0}
 	limit := limits[kit.ChooseFree(len(limits))]
@@ -246,9 +272,13 @@ func frameLengths() {
 	v := open(k, limit)
 	h := v.goodPeer("hostile")
 	ctl := v.goodPeerIfRoom()
-	var pre [8]byte
-	binary.BigEndian.PutUint64(pre[:], uint64(ln))
-	h.Feed(pre[:])
+	var pre8 [8]byte
+	binary.BigEndian.PutUint64(pre8[:], uint64(ln))
+	pre := pre8[:]
+	if scheme == "vipc" {
+		pre = append([]byte{1}, pre...)
+	}
+	h.Feed(pre)
 	var payload []byte
 	if ln == 0 {
 		bodyMode = "exact" // an empty frame is complete as it stands
@@ -281,8 +311,8 @@ func frameLengths() {
 		if !h.ClosedByMangos() {
 			kit.Failf("overlong-frame-not-dropped", "%s limit=%d: frame announcing %d bytes did not close the connection", k.Name, eff, ln)
 		}
-		if h.BytesRead() != 16 {
-			kit.Failf("overlong-frame-read-on", "%s limit=%d: after the length %d mangos read %d further byte(s)", k.Name, eff, ln, h.BytesRead()-16)
+		if h.BytesRead() != 8+prefixLen() {
+			kit.Failf("overlong-frame-read-on", "%s/%s limit=%d: after the length %d mangos read %d further byte(s)", scheme, k.Name, eff, ln, h.BytesRead()-8-prefixLen())
 		}
 		if int64(lg.MaxAlloc) >= ln && ln > 0 {
 			kit.Failf("overlong-frame-allocated", "%s limit=%d: a %d byte message was allocated for a frame announcing %d bytes", k.Name, eff, lg.MaxAlloc, ln)
@@ -322,7 +352,7 @@ func frameLengths() {
 	if ctl != nil && (eff == 0 || eff >= 64) {
 		v.exchange(ctl, fmt.Sprintf("beside a frame announcing %d bytes", ln))
 	}
-	kit.Observe("%s limit=%d len=%d %s", k.Name, limit, ln, bodyMode)
+	kit.Observe("%s %s limit=%d len=%d %s", scheme, k.Name, limit, ln, bodyMode)
 	kit.Must("Close", func() { _ = v.x.S.Close() })
 }
 
@@ -335,6 +365,7 @@ func (v *srv) goodPeerIfRoom() *net.VConn {
 }
 
 func frameTruncated() {
+	pickScheme()
 	k := kinds.ByName([]string{"pull", "rep"}[kit.ChooseFree(2)])
 	payload := []byte{0x80, 0, 0, 1, 'h', 'e', 'l', 'l', 'o', '!', '!', '!'}
 	f := frame(payload)
@@ -369,7 +400,7 @@ func frameTruncated() {
 	if !c.Done() || c.Err != nil || c.Val.(string) != want {
 		kit.Failf("control-peer-not-served:truncation", "%s: after a truncated frame elsewhere: done=%v %s %q", k.Name, c.Done(), kit.ErrName(c.Err), c.Val)
 	}
-	kit.Observe("%s cut=%d end=%d", k.Name, cut, end)
+	kit.Observe("%s %s cut=%d end=%d", scheme, k.Name, cut, end)
 	kit.Must("Close", func() { _ = v.x.S.Close() })
 }
 
@@ -412,6 +443,7 @@ func reference(k *kinds.Kind, b []byte) (string, bool) {
 var alphabet = []byte{0x00, 0x01, 0x7f, 0x80, 0xff}
 
 func protoBodies(L int) {
+	scheme = "tcp"
 	var ks []*kinds.Kind
 	for _, k := range kinds.All {
 		if k.CanRecv {
@@ -510,6 +542,7 @@ func recvAll(x *kinds.Sock, max int) []string {
 }
 
 func stalledVsGood() {
+	scheme = "tcp"
 	k := kinds.ByName("rep")
 	v := open(k, -1)
 	stall := v.ep.Connect()
@@ -551,6 +584,7 @@ func pat(seed, n int) []byte {
 }
 
 func chunking(thorough bool) {
+	pickScheme()
 	k := kinds.ByName([]string{"pull", "pair", "xsub"}[kit.ChooseFree(3)])
 	seqs := [][]int{{0}, {1}, {0, 0, 1}, {3, 0, 5}, {9, 1, 0, 2}, {17}, {8, 8}}
 	sq := seqs[kit.ChooseFree(len(seqs))]
@@ -582,13 +616,13 @@ func chunking(thorough bool) {
 		}
 		off := 0
 		for _, m := range msgs {
-			if s > off && s < off+8 {
+			if s > off && s < off+prefixLen() {
 				kit.Count("split-inside-length-prefix")
 			}
-			if s > off+8 && s < off+8+len(m) {
+			if s > off+prefixLen() && s < off+prefixLen()+len(m) {
 				kit.Count("split-inside-payload")
 			}
-			off += 8 + len(m)
+			off += prefixLen() + len(m)
 		}
 	}
 	h.Feed(stream)
@@ -608,7 +642,7 @@ func chunking(thorough bool) {
 	if h.Unread() != 0 {
 		kit.Failf("chunked-unread", "%d bytes were never read", h.Unread())
 	}
-	kit.Observe("%s %v p=%d/%d", k.Name, sq, policy, second)
+	kit.Observe("%s %s %v p=%d/%d", scheme, k.Name, sq, policy, second)
 	kit.Must("Close", func() { _ = v.x.S.Close() })
 }
 
@@ -617,6 +651,7 @@ var sendSz = []int{0, 1, 2, 7, 8, 9, 63, 64, 65, 127, 128, 129, 255, 256, 257, 5
 // sendSizes: what mangos writes for a sequence of messages is exactly the concatenation of
 // 8-byte big-endian lengths and payloads (pool reuse across classes in between).
 func sendSizes() {
+	pickScheme()
 	k := kinds.ByName([]string{"push", "pair", "xpub"}[kit.ChooseFree(3)])
 	i := kit.ChooseFree(len(sendSz))
 	j := kit.ChooseFree(len(sendSz))
@@ -639,7 +674,7 @@ func sendSizes() {
 	if got := h.Written(); !bytes.Equal(got, want) {
 		kit.Failf("stream-bytes-differ", "%s sizes %d,%d,%d: mangos wrote %d bytes, the SP mapping gives %d bytes; first difference at %d", k.Name, sendSz[i], sendSz[j], sendSz[i], len(got), len(want), firstDiff(got, want))
 	}
-	kit.Observe("%s %d %d", k.Name, sendSz[i], sendSz[j])
+	kit.Observe("%s %s %d %d", scheme, k.Name, sendSz[i], sendSz[j])
 	kit.Must("Close", func() { _ = v.x.S.Close() })
 }
 
@@ -659,6 +694,7 @@ func firstDiff(a, b []byte) int {
 // C15 (stream part): header and framing for every socket type, both roles
 
 func wireAllProtocols() {
+	scheme = "tcp"
 	k := kinds.All[kit.ChooseFree(len(kinds.All))]
 	role := kit.ChooseFree(2)
 	s, err := k.New()
